@@ -128,8 +128,9 @@ theorem step_romEq (c : Cpu) : RomEq c.arch.bus (step c).1.arch.bus := stepArch_
 theorem executeTimed_romEq (c : Cpu) (e : Option UInt32) : RomEq c.arch.bus (executeTimed c e).1.arch.bus :=
   stepArch_romEq c.arch
 
-theorem runEvent_romEq (c : Cpu) (e : Event) : RomEq c.arch.bus (runEvent c e).arch.bus := by
+theorem runEvent_romEq (c : Cpu) (e : Event) (hr : e.isSetRom = false) : RomEq c.arch.bus (runEvent c e).arch.bus := by
   cases e with
+  | setRom s t => simp [Event.isSetRom] at hr
   | step => exact step_romEq c
   | timed e => exact executeTimed_romEq c e
   | int b => exact RomEq.refl _
@@ -137,9 +138,14 @@ theorem runEvent_romEq (c : Cpu) (e : Event) : RomEq c.arch.bus (runEvent c e).a
   | writeByte a v => exact RomEq.writeByte _ _ _
   | writeWord a w => exact RomEq.writeWord _ _ _
 
-theorem run_romEq (c : Cpu) (es : List Event) : RomEq c.arch.bus (run c es).arch.bus := by
+theorem run_romEq (c : Cpu) (es : List Event) (hr : ∀ e ∈ es, e.isSetRom = false) :
+    RomEq c.arch.bus (run c es).arch.bus := by
   induction es generalizing c with
   | nil => exact RomEq.refl _
-  | cons e es ih => exact (runEvent_romEq c e).trans (ih _)
+  | cons e es ih =>
+    exact (runEvent_romEq c e (hr e (by simp))).trans (ih _ (fun x hx => hr x (by simp [hx])))
+
+theorem run_append (c : Cpu) (es1 es2 : List Event) : run c (es1 ++ es2) = run (run c es1) es2 := by
+  simp [run, List.foldl_append]
 
 end Z80
